@@ -351,6 +351,21 @@ class Runner:
                         if part:
                             res += cont.add_objects_to_pack([data(k) for k in part], do_commit=False, **kwargs)
                     cont._get_operation_session().commit()  # pylint: disable=protected-access
+                elif via == 'bytes' and step.get('nested'):
+                    # another handle writes to the packs from inside this call's 'init' progress callback (after this call
+                    # has chosen its pack, before it locks it); the nested call is recorded as a step of its own
+                    nested = dict(step['nested'])
+                    outer = self.current
+                    fired = []
+
+                    def callback(action, value=None):  # pylint: disable=unused-argument
+                        if action == 'init' and not fired:
+                            fired.append(True)
+                            inner_res, inner_raised = self.call(nested)
+                            self.record(nested, inner_res, inner_raised)
+                            self.current = outer
+
+                    res = cont.add_objects_to_pack([data(k) for k in step['keys']], callback=callback, **kwargs)
                 elif via == 'bytes':
                     res = cont.add_objects_to_pack([data(k) for k in step['keys']], **kwargs)
                 elif via == 'streams':
@@ -472,7 +487,7 @@ class Runner:
         obs = {
             'loose': [{'k': self.name_of.get(k, k[:8]), 'tag': v['tag']} for k, v in sorted(state['loose'].items())],
             'rows': [{'k': self.name_of.get(r['hashkey'], r['hashkey'][:8]), 'p': r['pack_id'], 'off': r['offset'],
-                      'len': r['length'], 'z': r['compressed'], 'size': r['size'], 'tag': r['tag']}
+                      'len': r['length'], 'z': r['compressed'], 'size': r['size'], 'tag': r['tag'], 'id': r['id']}
                      for r in state['rows']],
             'packs': [{'p': p, 'len': info['len']} for p, info in sorted(state['packs'].items())],
             'dups': sorted({self.name_of.get(name.partition('.')[0], name[:8]) for name in state['duplicates']}),
@@ -591,9 +606,15 @@ class Runner:
             pack_id += 1
         return locks != {pack_id}
 
+    def record(self, step, res, raised):
+        line, self.prev_blobs, self.prev_rows = self.observe(self.prev_blobs, self.prev_rows)
+        line['op'] = self.op_record(step, res, raised)
+        self.lines.append(line)
+
     def run(self, steps):
-        lines = []
+        lines = self.lines = []
         first, blobs, rows = self.observe({}, [])
+        self.prev_blobs, self.prev_rows = blobs, rows
         first['op'] = self.op_record({'name': 'init'}, [], '')
         lines.append(first)
         for step in steps:
@@ -603,13 +624,9 @@ class Runner:
                 # the clean case: the operator removes such a lock first (an explicit, recorded 'unlock' step)
                 unlock = {'name': 'unlock', 'h': step.get('h', 'h1')}
                 res, raised = self.call(unlock)
-                line, blobs, rows = self.observe(blobs, rows)
-                line['op'] = self.op_record(unlock, res, raised)
-                lines.append(line)
+                self.record(unlock, res, raised)
             res, raised = self.call(step)
-            line, blobs, rows = self.observe(blobs, rows)
-            line['op'] = self.op_record(step, res, raised)
-            lines.append(line)
+            self.record(step, res, raised)
         for cont in self.handles.values():
             cont.close()
         closed_fds = fd_census(self.folder, include_index=True)
@@ -642,7 +659,7 @@ INVARIANTS = {
     'C10': ['C10_Mode', 'C10_Sizes', 'C10_Totals', 'C10_Transparent'],
     'C11': ['C11_DeleteExact', 'C11_RepackCompact', 'C11_DeleteRemovesDuplicates', 'C11_CleanAfterDelete'],
     'C12': ['C12_ValidateClean'],
-    'C13': ['C13_AppendOnly', 'C13_Numbering', 'C13_OnlyLastGrows'],
+    'C13': ['C13_AppendOnly', 'C13_Numbering', 'C13_OnlyLastGrows', 'C13_FilledInOrder'],
     'C18': ['C18_NoFdLeak', 'C18_ClosedNoFds'],
     'C08': ['C08_HandleViews'],
     'C14': ['C14_ImportExact'],
